@@ -17,6 +17,7 @@
 from types import FrameType
 from typing import Optional, TYPE_CHECKING
 
+import deep.logging
 from deep.processor.context.action_context import ActionContext
 from deep.processor.context.action_results import ActionResult, ActionCallback
 
@@ -42,7 +43,11 @@ class SpanActionCallback(ActionCallback):
         :return: True, to keep this callback until next match.
         """
         for span in self.__spans:
-            span.close()
+            try:
+                span.close()
+            except Exception:
+                # every span must get its close, even if another span (plugin) fails to close
+                deep.logging.exception("Cannot close span %s", span)
         return False
 
 
@@ -86,7 +91,12 @@ class SpanActionContext(ActionContext):
         spans = []
 
         for span_processor in self.trigger_context.config.span_processors:
-            span = span_processor.create_span(name, self.trigger_context.id, self.location_action.tracepoint.id)
+            try:
+                span = span_processor.create_span(name, self.trigger_context.id, self.location_action.tracepoint.id)
+            except Exception:
+                # a failing span plugin costs only its own span
+                deep.logging.exception("Cannot create span with %s", span_processor)
+                continue
             if span:
                 spans.append(span)
 
